@@ -29,14 +29,19 @@ def plan(tier, work, stats, rng):
     for t in seqs:
         for v in (0, 1):
             inputs.append(("all/%d" % v, R.render(t, v)))
+    # call sites: every argument list (positional / splat / keyword / double splat) against 7 parameter lists
+    for i, t in enumerate(R.proggen(work, "calls", stats, maxlen=3 if tier == "quick" else 4)):
+        inputs.append(("calls", R.render(t, 2)))
+        if i % 4 == 0:
+            inputs.append(("calls/compact", R.render(t, 1)))
     for i, t in enumerate(gram):
-        inputs.append(("gram/%d" % (i % 2), R.render(t, i % 2)))
+        inputs.append(("gram/%d" % (i % 3), R.render(t, i % 3)))
     # deeper programs with two mutations by seeded simulation
     sim = R.proggen(work, "grammar", stats, stmts=5, depth=3, mut=2,
                     simulate="num=%d" % nsim, extra=["-depth", "16", "-seed", str(C.seed())])
     sim = [t for t in sim if len(t) > 8]
     for i, t in enumerate(rng.sample(sim, min(ksim, len(sim)))):
-        inputs.append(("sim/%d" % (i % 2), R.render(t, i % 2)))
+        inputs.append(("sim/%d" % (i % 3), R.render(t, i % 3)))
     for tag, text in R.corpus_prefixes(rng, nfiles):
         inputs.append((tag, text))
     # dedupe texts
@@ -136,6 +141,9 @@ def run(prop, tier, work):
     traces = []
     first = {}
     for job, res in zip(jobs, results):
+        if res.get("skipped"):
+            v.count("skipped_after_repeated_worker_timeouts")
+            continue
         v.count("runs")
         if res.get("died") and not res.get("cls"):
             v.count("worker_died")
@@ -216,7 +224,7 @@ def judge_blackbox(prop, res, args):
 
 
 def differential_guard(work, jobs, results, rng, n):
-    idx = [i for i, r in enumerate(results) if not r.hung and not r.crashed and not r.get("died")]
+    idx = [i for i, r in enumerate(results) if not r.hung and not r.crashed and not r.get("died") and not r.get("skipped")]
     pick = rng.sample(idx, min(n, len(idx)))
     bb = C.Runner(work, "blackbox")
     rs = bb.run_many([{"files": jobs[i]["files"], "args": jobs[i]["args"]} for i in pick])
